@@ -19,11 +19,12 @@ import (
 
 // RT is the Go runtime view: package frugal of module lib/go.
 type RT struct {
-	Ctx     *core.Ctx
-	V       *load.View
-	Pkg     *ssa.Package
-	Fns     []*ssa.Function
-	Resolve func(ssax.Call) []*ssa.Function
+	Ctx        *core.Ctx
+	V          *load.View
+	Pkg        *ssa.Package
+	Fns        []*ssa.Function
+	Resolve    func(ssax.Call) []*ssa.Function
+	ResolveCHA func(ssax.Call) []*ssa.Function
 }
 
 var rtCache = map[string]*RT{}
@@ -46,7 +47,32 @@ func LoadRT(ctx *core.Ctx, goos, goarch string) *RT {
 	}
 	r.Pkg = v.SSA[v.Pkgs[0].PkgPath]
 	r.Fns = load.SrcFuncs(r.Pkg)
-	r.Resolve = ssax.Resolver(r.Pkg)
+	chaResolve := ssax.Resolver(r.Pkg)
+	sites := v.VTASites(r.Pkg)
+	// interface calls are resolved with the VTA call graph (type-flow based),
+	// which unlike CHA does not pretend that e.g. an http.Response.Body could
+	// be one of our transports; static calls and closures as before.
+	r.Resolve = func(c ssax.Call) []*ssa.Function {
+		if c.Static != nil || c.Method == nil {
+			return chaResolve(c)
+		}
+		var out []*ssa.Function
+		for _, f := range sites[c.Instr] {
+			if f.Pkg == r.Pkg && f.Synthetic == "" {
+				out = append(out, f)
+			}
+		}
+		if len(out) == 0 {
+			// values entering through exported API parameters have no type flow
+			// inside the program: for interfaces declared in package frugal fall
+			// back to every implementer declared here (CHA).
+			if n, ok := c.Common.Value.Type().(*types.Named); ok && n.Obj().Pkg() == r.Pkg.Pkg {
+				return chaResolve(c)
+			}
+		}
+		return out
+	}
+	r.ResolveCHA = chaResolve
 	ctx.Stat("rt_functions", len(r.Fns))
 	nb, ni := 0, 0
 	for _, f := range r.Fns {
@@ -448,4 +474,149 @@ func lockBalance(ctx *core.Ctx, r *RT, rule string, owners ...string) {
 				ssax.PathString(r.V.Fset, l.Path)...)
 		}
 	}
+}
+
+// lockField returns "Owner.field" for a mutex operation.
+func lockField(c ssax.Call) (owner, field string, recv ssa.Value) {
+	if _, op := ssax.LockOp(c); op == "" || len(c.Common.Args) == 0 {
+		return
+	}
+	v := ssax.Strip(c.Common.Args[0])
+	if u, ok := v.(*ssa.UnOp); ok && u.Op == token.MUL {
+		v = u.X
+	}
+	fa, ok := v.(*ssa.FieldAddr)
+	if !ok {
+		return
+	}
+	t := fa.X.Type().Underlying().(*types.Pointer).Elem()
+	n, ok := t.(*types.Named)
+	if !ok {
+		return
+	}
+	st := t.Underlying().(*types.Struct)
+	return n.Obj().Name(), st.Field(fa.Field).Name(), fa.X
+}
+
+// acquires computes, per function, the set of "Owner.field" mutexes the
+// function may acquire on its own receiver, directly or through same-receiver
+// package-internal calls (not go).
+func acquires(r *RT) map[*ssa.Function]map[string]bool {
+	acq := map[*ssa.Function]map[string]bool{}
+	for _, fn := range r.Fns {
+		acq[fn] = map[string]bool{}
+		for _, c := range ssax.Calls(fn) {
+			if _, isGo := c.Instr.(*ssa.Go); isGo {
+				continue
+			}
+			if _, op := ssax.LockOp(c); op == "Lock" || op == "RLock" {
+				o, f, recv := lockField(c)
+				if o != "" && len(fn.Params) > 0 && ssax.Strip(recv) == ssa.Value(fn.Params[0]) {
+					acq[fn][o+"."+f] = true
+				}
+			}
+		}
+	}
+	changed := true
+	for changed {
+		changed = false
+		for _, fn := range r.Fns {
+			for _, c := range ssax.Calls(fn) {
+				if _, isGo := c.Instr.(*ssa.Go); isGo {
+					continue
+				}
+				if c.Static == nil || c.Static.Pkg != r.Pkg || len(c.Common.Args) == 0 || len(fn.Params) == 0 {
+					continue
+				}
+				if ssax.Strip(c.Common.Args[0]) != ssa.Value(fn.Params[0]) {
+					continue
+				}
+				for k := range acq[c.Static] {
+					if !acq[fn][k] {
+						acq[fn][k] = true
+						changed = true
+					}
+				}
+			}
+		}
+	}
+	return acq
+}
+
+// noDoubleAcquire: while a non-reentrant mutex of `owners` is held, no call is
+// made (on the same receiver) to a function that acquires the same mutex.
+func noDoubleAcquire(ctx *core.Ctx, r *RT, rule string, owners ...string) {
+	own := map[string]bool{}
+	for _, o := range owners {
+		own[o] = true
+	}
+	acq := acquires(r)
+	for _, fn := range r.Fns {
+		var locks map[ssa.Instruction]ssax.LockSet
+		n, bad := 0, 0
+		for _, c := range ssax.Calls(fn) {
+			if c.Static == nil || c.Static.Pkg != r.Pkg || len(c.Common.Args) == 0 {
+				continue
+			}
+			if _, isGo := c.Instr.(*ssa.Go); isGo {
+				continue
+			}
+			if len(acq[c.Static]) == 0 {
+				continue
+			}
+			if locks == nil {
+				locks = ssax.LockSets(fn, nil)
+			}
+			in := c.Instr.(ssa.Instruction)
+			_, isDefer := in.(*ssa.Defer)
+			ls := locks[in]
+			recvKey := ssax.AddrKey(c.Common.Args[0])
+			for k := range acq[c.Static] {
+				parts := strings.SplitN(k, ".", 2)
+				if !own[parts[0]] {
+					continue
+				}
+				n++
+				held := false
+				for lk := range ls {
+					if lk == recvKey+"."+parts[1] {
+						held = true
+					}
+				}
+				if held && !isDefer {
+					bad++
+					ctx.Violate(rule, ssax.Name(fn)+" › calls "+ssax.Name(c.Static)+" while holding "+recvKey+"."+parts[1], r.IPos(in),
+						"the callee acquires the same non-reentrant mutex on the same object: the goroutine deadlocks with itself and the mutex is never released")
+				}
+			}
+		}
+		if n > 0 && bad == 0 {
+			ctx.Discharge(rule, ssax.Name(fn)+" › no call re-acquires a held mutex", fnPos(r, fn), sprintf("%d lock-taking callee(s) are called with that lock released", n))
+		}
+	}
+}
+
+// resolveFieldLoad: for a load of base.field, return the value most recently
+// stored to the same field address earlier in the same block (if any).
+func resolveFieldLoad(v ssa.Value) ssa.Value {
+	v = ssax.Strip(v)
+	u, ok := v.(*ssa.UnOp)
+	if !ok || u.Op != token.MUL {
+		return v
+	}
+	fa, ok := u.X.(*ssa.FieldAddr)
+	if !ok {
+		return v
+	}
+	key := ssax.AddrKey(fa)
+	b := u.Block()
+	for i := ssax.Idx(u) - 1; i >= 0; i-- {
+		if st, ok := b.Instrs[i].(*ssa.Store); ok && ssax.AddrKey(st.Addr) == key {
+			return ssax.Strip(st.Val)
+		}
+		if _, isCall := b.Instrs[i].(*ssa.Call); isCall {
+			break
+		}
+	}
+	return v
 }
